@@ -12,6 +12,7 @@ import bfg9000.backends.ninja.syntax as nsyn
 import bfg9000.shell as bshell
 from bfg9000.safe_str import shell_literal, literal, jbos
 from contracts import fragments as FR
+from contracts import posix_shell as PS
 from bfg9000.backends.ninja.syntax import Syntax
 
 def has_pipe_crlf(w):
@@ -113,6 +114,8 @@ def written(self_obj, buf0):
             raise OutOfSubset('stream is not old-buffer + appended text')
         return T.lit(b[len(b0):])
     buf = M.sym_str(b)
+    if T.is_empty(z3.simplify(buf0)):
+        return z3.simplify(buf)
     parts = T.flat_parts(z3.simplify(buf))
     if not parts or parts[0].get_id() != buf0.get_id():
         raise OutOfSubset('stream is not old-buffer + appended text')
@@ -131,6 +134,7 @@ class Write(Contract):
     def cases(self):
         cs = ['%s/%s' % (k, sx) for k in self.KINDS for sx in ('shell', 'clean', 'output', 'input')]
         cs += ['jbos/%s/%s' % (sx, sq) for sx in ('shell', 'clean', 'output', 'input') for sq in ('quote', 'inner', 'none')]
+        cs += ['str/shell/inner', 'path/shell/str', 'path/shell/var+str', 'path/shell/var']
         return cs
 
     def loops(self):
@@ -138,6 +142,8 @@ class Write(Contract):
 
     def case_in_property(self, case, pid):
         sx = case.split('/')[1]
+        if case.startswith('path/') or case == 'str/shell/inner':
+            return pid in ('C02', 'C04')
         return sx in {'C02': ('shell', 'clean'), 'C04': ('output', 'input')}.get(pid, (sx,))
 
     def result_value(self, I, a):
@@ -162,6 +168,18 @@ class Write(Contract):
             thing = Obj(jbos, {'_jbos__bits': Sym(bits, FR.BITS_TY)})
             return {'self': self.mk_self(cx), 'thing': thing, 'syntax': Syntax[sx],
                     'shell_quote': FR.sq_fn(self.cur_sq)}
+        if case == 'str/shell/inner':
+            self.cur_sq = 'inner'
+            return {'self': self.mk_self(cx), 'thing': cx.str('thing'), 'syntax': Syntax.shell,
+                    'shell_quote': FR.sq_fn('inner')}
+        if kind == 'path':
+            shape = case.split('/')[2]
+            from bfg9000.platforms.posix import PosixPath
+            cx.ghost('shape', shape)
+            cx.ghost('rz', cx.str('realized_suffix').e)
+            cx.ghost('V', z3.Const('var_ref', T.Str))
+            cx.ghost('pm', z3.Const('var_markers', T.Str))
+            return {'self': self.mk_self(cx), 'thing': Obj(PosixPath, {'is_path_param': True}), 'syntax': Syntax[sx]}
         if kind == 'str':
             thing = cx.str('thing')
         elif kind == 'shell_literal':
@@ -169,6 +187,40 @@ class Write(Contract):
         else:
             thing = Obj(literal, {'string': cx.str('thing_string')})
         return {'self': self.mk_self(cx), 'thing': thing, 'syntax': Syntax[sx]}
+
+    READER = 'ninja'
+
+    def is_path(self, a):
+        return isinstance(a.thing, Obj) and a.thing.attrs.get('is_path_param')
+
+    def opaque_calls(self):
+        from bfg9000.platforms.basepath import BasePath
+
+        def realize(I, args, kwargs, node):
+            a = self.cur
+            if not self.is_path(a):
+                raise OutOfSubset('realize() outside the path cases')
+            I.events.append(('realize', args, dict(kwargs)))
+            rz, V = Sym(a.rz, 'str'), Obj(literal, {'string': Sym(a.V, 'str')})
+            if a.shape == 'str':
+                return rz
+            if a.shape == 'var':
+                return V
+            return Obj(jbos, {'_jbos__bits': (V, rz)})
+        return {BasePath.__dict__['realize']: realize}
+
+    def var_ok(self, a):
+        V, pm = a.V, a.pm
+        n = z3.Length(V)
+        return z3.And(n >= 3, V[0] == ord('$'), V[n - 1] != ord("'"), PS.reads(self.READER, V, pm), FR.all_markers(pm))
+
+    def ghosts_for(self, callee, a, frame, site):
+        if isinstance(callee, PS.WrapQuotes):
+            me = self.cur
+            pre, pm = (T.empty(), T.empty()) if me.shape == 'str' else (me.V, me.pm)
+            m = T.empty() if me.shape == 'var' else me.rz
+            return {'m': m, 'pre': pre, 'pm': pm, 'reader': self.READER}
+        return None
 
     def content(self, a):
         t = a.thing
@@ -180,6 +232,9 @@ class Write(Contract):
     def requires(self, a):
         if self.is_jbos(a):
             return z3.BoolVal(True)
+        if self.is_path(a):
+            return T.AND(z3.Not(has_crlf(a.rz)), self.var_ok(a),
+                         z3.BoolVal(True) if a.shape == 'var' else z3.Length(a.rz) > 0)
         s = self.content(a)
         if isinstance(a.thing, Obj) and a.thing.cls is literal:
             return z3.BoolVal(True)
@@ -196,10 +251,22 @@ class Write(Contract):
             return {'text_is_concatenation_of_fragment_texts': buf == z3.Concat(a.buf0, fns.CW(bits, n)),
                     'flag_is_disjunction_of_fragment_flags': T.zbool(M.lift(r)) == fns.OE(bits, n)}
         w = written(a.self, a.buf0)
+        if self.is_path(a):
+            ok, tt = PS.reader_out(self.READER, w)
+            content = {'str': a.rz, 'var': a.pm, 'var+str': T.cat(a.pm, a.rz)}[a.shape]
+            ev = [e for e in a.events if e[0] == 'realize']
+            return {'path_realized_once_with_the_writers_variables': z3.BoolVal(
+                        len(ev) == 1 and ev[0][1][0] is a.thing and ev[0][1][1] is a.self.attrs['path_vars']),
+                    'build_tool_reads_literal_text': ok,
+                    'sh_reads_exactly_the_realized_path_as_one_fragment': frag(tt, content)}
         s = self.content(a)
         t = a.thing
+        if FR.sq_tag(a._d.get('shell_quote')) == 'inner' and not isinstance(t, Obj):
+            q = T.zbool(M.lift(r))
+            return {'text_is_dollar_doubled_inner_quoting': w == FR.dol(z3.If(q, PS.sq(s), s)),
+                    'unquoted_only_if_inert': z3.Implies(z3.Not(q), T.AND(z3.Length(s) > 0, z3.Not(PS.not_inert(s))))}
         if isinstance(t, Obj) and t.cls is literal:
-            return {'literal_verbatim': w == s}
+            return {'literal_verbatim': w == s, 'literal_counts_as_escaped': T.zbool(M.lift(r))}
         if a.syntax in (Syntax.output, Syntax.input):
             return {'ninja_reads_path_back': literal_value(nj_path, w, s)}
         st, out = nj_value.run((NORMAL, 1), w)
@@ -209,8 +276,33 @@ class Write(Contract):
             return {'ninja_value_is_literal': lit_ok, 'sh_reads_back_exactly_thing': frag(out, s)}
         return {'ninja_reads_value_back': T.AND(lit_ok, out == s)}
 
+    def side_proof(self, p, a, kind, name, case):
+        if case.startswith('path/') and 'wrap_quotes' in name:
+            rz = a.rz
+            p.use(PS.L_sq_identity.inst(u=rz))
+            p.use(PS.L_inert_no_quote.inst(u=rz))
+        p.qed()
+
+    def proof(self, p, a, r, name, case):
+        if case.startswith('path/'):
+            rz = a.rz
+            p.use(PS.L_inert.inst(u=rz))
+            p.use(PS.L_reader_dollar[self.READER].inst(u=rz))
+            p.use(PS.L_markers_sq.inst(u=a.pm))
+        p.qed()
+
     def apply_at_call(self, I, bound, site, frame):
         thing = bound['thing']
+        if isinstance(thing, Obj) and thing.cls is jbos and isinstance(thing.attrs.get('_jbos__bits'), tuple):
+            # a jbos whose bits are known: by the jbos case of this contract (proved for lists of any length) the
+            # call behaves as the sequence of writes of its bits with the same syntax and shell_quote
+            esc = False
+            for k, bit in enumerate(thing.attrs['_jbos__bits']):
+                b2 = dict(bound)
+                b2['thing'] = bit
+                e = self.apply_at_call(I, b2, '%s.bit%d' % (site, k), frame)
+                esc = M.mk_bool(T.OR(T.zbool(M.lift(esc)), T.zbool(M.lift(e))))
+            return esc
         if isinstance(thing, Sym) and isinstance(thing.ty, tuple) and thing.ty[0] == 'opaque':
             # a fragment of unknown kind: its text and flag are the (uninterpreted) functions of the fragment,
             # the syntax and the shell_quote that were passed
@@ -228,18 +320,27 @@ class Write(Contract):
 
     def native_build(self, case, raw):
         import io
-        kind, sx = case.split('/')
+        parts = case.split('/')
+        kind, sx = parts[0], parts[1]
         buf0 = 'PRE'
         stream = io.StringIO()
         stream.write(buf0)
         wr = nsyn.Writer(stream, {}, bshell)
         selfv = Obj(nsyn.Writer, {'stream': PStream(buf0), 'path_vars': None, 'shell': bshell})
-        a = Args({'self': selfv, 'thing': raw['thing'], 'syntax': Syntax[sx]}, {'buf0': T.lit(buf0)})
-        return {'writer': wr, 'thing': raw['thing'], 'syntax': Syntax[sx], '_self': selfv}, a
+        d = {'self': selfv, 'thing': raw['thing'], 'syntax': Syntax[sx]}
+        extra = {}
+        if len(parts) == 3:
+            d['shell_quote'] = FR.sq_fn(parts[2])
+            extra['shell_quote'] = d['shell_quote']
+        a = Args(d, {'buf0': T.lit(buf0)})
+        return dict({'writer': wr, 'thing': raw['thing'], 'syntax': Syntax[sx], '_self': selfv}, **extra), a
 
     def native_call(self, case, call_args):
         wr = call_args['writer']
-        r = wr.write(call_args['thing'], call_args['syntax'])
+        if 'shell_quote' in call_args:
+            r = wr.write(call_args['thing'], call_args['syntax'], call_args['shell_quote'])
+        else:
+            r = wr.write(call_args['thing'], call_args['syntax'])
         call_args['_self'].attrs['stream'].buf = wr.stream.getvalue()
         return r
 
